@@ -28,6 +28,7 @@ import (
 	"github.com/internetarchive/Zeno/internal/pkg/source/hq"
 	"github.com/internetarchive/Zeno/internal/pkg/stats"
 	"github.com/internetarchive/Zeno/internal/pkg/utils"
+	"github.com/internetarchive/Zeno/internal/pkg/verifhook"
 	"github.com/internetarchive/Zeno/pkg/models"
 )
 
@@ -134,6 +135,8 @@ func (p *preprocessor) worker(workerID string) {
 				}
 
 				preprocess(workerID, seed)
+
+				verifhook.At("preprocessor.forward", seed.GetID())
 
 				select {
 				case <-p.ctx.Done():
